@@ -36,7 +36,8 @@ def aux(shape, dims, fill, dry=False):
     import xarray as xr
     w = np.array([6.0 + 5 * c for c in fill]).reshape(shape)
     wd = np.array([30.0 * c * c for c in fill]).reshape(shape)
-    dp = np.array([(0.0 if (dry and c == 3) else 15.0 * 10 ** c) for c in fill]).reshape(shape)
+    # intermediate depths (6, 12, 24 m) so that the depth of a position actually decides its wind-sea mask
+    dp = np.array([(0.0 if (dry and c == 3) else 3.0 * 2 ** c) for c in fill]).reshape(shape)
     mk = lambda a: xr.DataArray(a, coords={d: np.arange(s) for d, s in zip(dims, shape)}, dims=tuple(dims))  # noqa
     return mk(w), mk(wd), mk(dp)
 
@@ -104,7 +105,7 @@ def run(ctx):
         w0, w1 = aux(shape, dims, v["before"], dry), aux(shape, dims, v["after"], dry)
         idxs = list(np.ndindex(*shape))
         pe = v["edited"] - 1
-        ops = OPS if not ctx.quick else [op for op in OPS if hash((op, tuple(v["before"]), ctx.seed)) % 2 == 0 or op in ("ptm1", "ptm3", "hs", "tp", "smooth33")]
+        ops = OPS if not ctx.quick else [op for op in OPS if hash((op, tuple(v["before"]), ctx.seed)) % 2 == 0 or op in ("ptm1", "ptm3", "ptm4", "hs", "tp", "smooth33")]
         for op in ops:
             if op == "hmax_notime" and "time" in dims:
                 continue          # with a time axis hmax is a function of the whole axis (excluded by the property)
